@@ -632,6 +632,13 @@ func (ev *evalCtx) call(e *SExpr) Val {
 		v := ev.eval(e.Args[1])
 		ev.heap = save
 		return v
+	case "fresh":
+		// fresh(x): x is an object allocated by this function activation (not handed in, not read
+		// from the heap as it was on entry): allocation sites yield the literals -(n+1), -(n+2), ...
+		if len(e.Args) != 1 {
+			return ev.fail("fresh(x)")
+		}
+		return ghost("(< "+argv(0).T+" "+smtInt(int64(-ev.fr.entryAlloc))+")", "Bool")
 	case "lastrecvok":
 		// ok of the most recent channel receive of this function (false: it found the channel closed)
 		if ev.fr.lastRecvOk == "" {
